@@ -47,22 +47,24 @@ func c15(w *World) {
 		simrt.Yield("watch'")
 	})
 	evBefore := sc.LogoutEvents()
+	if w.W.Chance(1, 3) {
+		// stay silent until the library probes us: the ending then begins while its TestRequest is
+		// outstanding (the session is still logged on although IsLogged() reads false in that window)
+		tol := hb / 20
+		if tol < 1 {
+			tol = 1
+		}
+		T := time.Duration(hb+tol) * time.Second
+		simrt.Sleep(T + T/10 + time.Millisecond)
+		sc.Settle()
+		if count(sc.P.Take(), "1") > 0 {
+			w.Probe("ending_while_probe_outstanding")
+			w.Cfg("probe_outstanding", true)
+		}
+	}
 
 	switch ending {
 	case "peer-logout":
-		if w.W.Chance(1, 3) {
-			// stay silent until the library probes us: the Logout then arrives while a TestRequest is outstanding
-			tol := hb / 20
-			if tol < 1 {
-				tol = 1
-			}
-			T := time.Duration(hb+tol) * time.Second
-			simrt.Sleep(T + T/10 + time.Millisecond)
-			sc.Settle()
-			if count(sc.P.Take(), "1") > 0 {
-				w.Probe("peer_logout_while_probe_outstanding")
-			}
-		}
 		r := dropTimer(sc.Step(sc.Msg("5")))
 		if !sc.checkFraming(r) {
 			return
